@@ -17,6 +17,11 @@ THEOREMS = [
     "Glob.translate_total", "Glob.translate_correct", "Glob.compiles_iff", "Glob.compiles_counterexample",
     "Glob.qnmatch_partial", "Glob.qnmatch_counterexample", "Glob.star_meaning", "Glob.dstar_meaning",
     "Glob.tokens_fuel", "Regex.nongreedy_irrelevant",
+    "Glob.lru_transparent", "Glob.lru_transparent_empty", "Glob.spec_plain", "Glob.spec_dstar_all",
+    "Glob.spec_below_any_depth", "Glob.spec_direct_members", "Glob.spec_anywhere",
+    "Privacy.parseRule_ok_iff", "Privacy.parseRule_colons", "Privacy.effective_cli_wins", "Privacy.effective_file_only",
+    "Privacy.precedence_effective", "Privacy.visPure_meaning", "Privacy.hidden_propagates",
+    "Privacy.coherent_of_wellNamed", "Privacy.cache_transparent_moves_wellNamed",
     "Privacy.default_meaning", "Privacy.exact_wins", "Privacy.last_pattern_wins", "Privacy.default_applies",
     "Privacy.precedence_partial", "Privacy.precedence_counterexample",
     "Privacy.parseRule_wellFormed", "Privacy.cli_rules_wellFormed", "Privacy.precedence_cli",
@@ -37,32 +42,38 @@ PARTIAL = {
                                  "(the cache is keyed by qualified name only); witness Privacy.cache_counterexample",
     "Privacy.cache_transparent_moves": "same hypothesis over every record an object has during the history (initial world and moves)",
 }
-RULE = ("exhaustive: every pattern of length <= 4 (quick) / <= 5 (thorough) over {a b . * ? [ ] ! - _} x every name of length "
-        "<= 4 / <= 5 over {a b . _}: text of qnmatch.translate, result or exception class of qnmatch.qnmatch vs the Lean model, "
-        "and vs an independent matcher written from the manual (direct oracle); random longer patterns/names over a wider "
-        "alphabet (backslash, ^, space, newline, non-ASCII) evaluated in shuffled order (lru_cache); every rule list of length "
-        "<= 3 over 3 levels x 6 rule texts (exact and pattern) given as --privacy values, parsed by the real option code, on a "
-        "real System with random query histories (privacyClass / isVisible / isPrivate, cache content compared), and the same "
-        "over 6 rule texts aimed at duplicate definitions (superseded 'p.d.K 0' with members, 'p.d.K.f 0', 'f 1', '_g 0'); every pattern "
-        "of the exhaustive space through parse_privacy_tuple (accepted iff well formed); hand-made rule lists put into "
-        "options.privacy directly (the only way a pattern re refuses still reaches qnmatch); query histories interleaved with "
-        "Documentable.reparent() of classes with members (moves into other modules, renames in place), every answer judged "
-        "for the object's current qualified name. Non-trivial = pattern has a metacharacter and some "
-        "name matches and some does not (glob streams) / the list has a rule that applies to a queried object (privacy streams).")
+RULE = ("deterministic corpus first (inputs of every past finding, the shapes every seeded change needs, the manual's examples, "
+        "name-edge cases); exhaustive: every pattern of length <= 4 (quick) / <= 5 (thorough) over {a b . * ? [ ] ! - _} x every "
+        "name of length <= 4 / <= 5 over {a b . _}: text of qnmatch.translate, result or exception class of qnmatch.qnmatch vs the "
+        "Lean model and vs an independent matcher written from the manual (direct oracle), and parse_privacy_tuple on every such "
+        "pattern (accepted iff well formed); random longer patterns/names over a wider alphabet evaluated in shuffled order; "
+        "qnmatch call histories through the lru_cache with cache_info() compared; every rule list of length <= 3 over 3 levels x 6 "
+        "rule texts (two families: plain tree, duplicate definitions) given as --privacy values, parsed by the real option code, on a "
+        "real System of 39 objects with random query histories (privacyClass / isVisible / isPrivate, cache content compared); "
+        "hand-made rule lists in options.privacy; query histories interleaved with Documentable.reparent(); configuration file + "
+        "command line through Options.from_args. Non-trivial = pattern has a metacharacter and some name matches and some does not "
+        "(glob streams) / the list has a rule that applies to a queried object (privacy streams) / hits and misses both occur (lru).")
 ASSUMPTIONS = [
-    "re.compile/match of CPython 3.12 on the emitted fragment behaves as Regex.parseSet/Regex.matchA say (exercised by every glob stream)",
-    "functools.lru_cache around _compile_pattern is transparent (pure function, exceptions not cached); exercised by shuffled evaluation order over > 256 patterns",
+    "re.compile/match of CPython 3.12 on the emitted fragment behaves as Regex.parseSet/Regex.matchA say (parameter; exercised by every glob stream)",
     "inside [seq] the manual does not define ranges; the oracle and Glob.spec read lo-hi as a code-point range (fnmatch convention), "
     "a descending range as empty, an unclosed [ as a literal, and the first character after [ or [! as part of seq even when it is ]",
     "dunder = starts and ends with two underscores (so '__' and '___' count as dunders, as in the code)",
     "the oracle's default includes 'modules named __main__ are PRIVATE' exactly when docs/source/customize.rst of the tree under "
     "test lists it under the PRIVATE default (it does since c8d85b0)",
-    "parse_privacy_tuple is modelled on ASCII input only (str.upper/strip are Unicode-aware)",
+    "parse_privacy_tuple: str.strip/str.upper are modelled on ASCII (non-ASCII characters inside the pattern are covered; a non-ASCII "
+    "space at an edge of the value or a non-ASCII letter in the level is outside the model)",
+    "configuration file + command line: the command line's --privacy list replaces the file's (configargparse; decided against the "
+    "real parser by C20) - C13 models it as Privacy.effectiveValues and ties it with the privacy-config stream only",
+    "the qualified names a move produces (Documentable.reparent, System.handleDuplicate) are read off the real objects; their "
+    "computation belongs to C02/C07 (Registry layer)",
 ]
 EXPLANATION = ("Glob.translate_correct: for every pattern and name, whenever re.compile accepts the emitted text, acceptance by "
-               "the emitted regex equals the manual's meaning; Glob.compiles_iff characterises the patterns re refuses. "
-               "Privacy.* state the precedence and cache transparency. The correspondence compares text, match vectors, "
-               "exception classes, privacy answers and cache content with the real code.")
+               "the emitted regex equals the manual's meaning; Glob.compiles_iff characterises the patterns re refuses; "
+               "Glob.lru_transparent: the lru_cache never changes an answer; Glob.spec_* what patterns mean at name edges. "
+               "Privacy.parseRule_ok_iff / cli_rules_wellFormed / precedence_cli / precedence_effective: what the option parser "
+               "accepts and that every accepted list is decided as the property says; cache_transparent(_moves), "
+               "isVisible_meaning, hidden_propagates. The correspondence compares text, match vectors, exception classes, "
+               "cache_info, parsed options, privacy answers and cache content with the real code.")
 
 ALPHA_P = "ab.*?[]!-_"
 ALPHA_N = "ab._"
@@ -803,8 +814,10 @@ def moves_eval(rules: Sequence[Tuple[str, str]], events: Sequence[tuple]) -> Dic
                               f"for its current qualified name (--privacy {rule_strings})"))
             else:
                 fails.append(("privacy-differs:" + op, inp, f"{ob.fullName()}.{meth} = {got}, the documented rules give {want} (--privacy {rule_strings})"))
+    # the hypotheses of Privacy.cache_transparent_moves_wellNamed, read off the real objects
+    wn = all("." not in o.name and (o.fullName() == o.name or o.fullName().endswith("." + o.name)) for o in order)
     return {"line": " ".join(req), "impl": " ".join(answers) + " | " + cache_repr(system), "fails": fails,
-            "applies": applies, "payload": payload, "moves": nmoves, "answers": answers}
+            "applies": applies, "payload": payload, "moves": nmoves, "answers": answers, "wellnamed": wn}
 
 
 def _moves_chunk(jobs):
@@ -829,6 +842,7 @@ def run_moves(ctx: Ctx) -> None:
         ctx.case(r["line"], nontriv, dict(r["payload"], impl=r.get("answers")) if nontriv and ctx.dist.get("privacy-moves:cases", 0) < 1 else None)
         ctx.count("privacy-moves:cases")
         ctx.count("privacy-moves:moves", r["moves"])
+        ctx.count("privacy-moves:hyp-wellNamed-" + ("holds" if r.get("wellnamed", True) else "fails"))
         for f in r["fails"]:
             ctx.fail(*f)
     ctx.compare("privacy-moves", [r["line"] for r in results], [r["impl"] for r in results], [r["payload"] for r in results])
@@ -902,6 +916,8 @@ def run_parse(ctx: Ctx) -> None:
         pat = "".join(rng.choice("ab.*?[]! \t_-") for _ in range(rng.randint(0, 6)))
         if rng.random() < 0.15:
             pat += rng.choice(["[b-a]", "[!a--]", "[a-b]", "[_-.]x"])
+        if rng.random() < 0.1:
+            pat = pat[:2] + rng.choice("éß\u4e2d") + pat[2:] + "x"   # non-ASCII away from the edges (strip/upper never see it)
         value = rng.choice([h + ":" + pat] * 6 + [h + pat, h + ":" + pat + ":" + pat, ":" + pat, h + "::" + pat])
         got = impl_parse(value)
         reqs.append("privacy parse " + enc(value))
@@ -912,13 +928,185 @@ def run_parse(ctx: Ctx) -> None:
     ctx.compare("privacy-parse", reqs, impls, pay)
 
 
+# ---------------------------------------------------------------------------------------------------
+# deterministic corpus: inputs of every past finding and the shapes every seeded change needs; runs first, every run
+
+CORPUS_GLOB = [
+    # finding raises:ReError:descending-range (fixed c6e4102): qnmatch called directly still raises
+    ("[b-a]", ["a", "b", "-"]), ("x[a--]", ["xa"]), ("m.[_-.]*", ["m.a"]),
+    # seeded C13-1 / C13-r2-3: a one-character wildcard or a set standing for a dot; a dot listed in a set
+    ("m.A?x", ["m.A.x", "m.Abx", "m.A.x.y", "m.Ax"]), ("m.B[!_]y", ["m.B.y", "m.B_y", "m.Bay"]),
+    ("m.[C.]", ["m.C", "m..", "m.D"]), ("a?b", ["a.b", "axb", "ab"]), ("pkg[._]mod", ["pkg_mod", "pkg.mod", "pkgxmod"]),
+    ("pkg.[!._]*", ["pkg.mod", "pkg._mod", "pkg..mod", "pkg.mod.sub"]),
+    # hand mutations of round 1: star over a dot, '?' not matching a dot, set negation / first characters
+    ("a*b", ["a.b", "axb", "ab", "a.xb"]), ("a**b", ["a.b", "a.x.b", "ab"]), ("a?", ["a.", "ab", "a"]),
+    ("[^a]", ["^", "a", "b"]), ("[!^]", ["^", "a"]), ("[]]", ["]", "a"]), ("[!]]", ["]", "a"]), ("[]-a]", ["]", "_", "a", "b"]),
+    ("[a-]", ["a", "-", "b"]), ("[--a]", [".", "-", "a", "b"]), ("[a\\-z]", ["\\", "a", "b", "z"]), ("[", ["["]), ("[!", ["[!"]), ("[]", ["[]"]),
+    # the manual's examples
+    ("**", ["", "a", "a.b.c"]), ("twisted.test.*", ["twisted.test.proto_helpers", "twisted.test", "twisted.test.a.b"]),
+    ("**.__*__", ["m.C.__init__", "__init__", "m.__x", "m.C.__a__.b"]), ("**.__init__", ["m.C.__init__", "__init__", "m.x__init__"]),
+    # name edges: empty components, leading / trailing dots
+    ("*", ["", "a", ".", "a.b"]), ("*.*", [".", "a.", ".a", "a.b", "a"]), ("**.", ["a.", ".", "a"]), (".**", [".a", ".", "a"]),
+    ("a.**", ["a.", "a", "a.b.c", "ab.c"]), ("a.*", ["a.", "a", "a.b", "a.b.c"]), ("***", ["a.b"]), ("a\nb", ["a\nb"]), ("a", ["a\n"]),
+]
+
+CORPUS_PRIVACY = [
+    # seeded C13-2 / C13-r2-2: several exact rules for one name: the last one wins
+    (["HIDDEN:p.m.C", "PUBLIC:p.m.C"], [("c", "p.m.C"), ("v", "p.m.C.f")]),
+    (["PUBLIC:p.m.C", "HIDDEN:p.m.C"], [("c", "p.m.C"), ("v", "p.m.C.f")]),
+    (["PUBLIC:p.m._C", "PRIVATE:p.m.*", "HIDDEN:p.m._C", "PRIVATE:p.m._C"], [("c", "p.m._C"), ("p", "p.m._C")]),
+    # exact beats a later pattern; last pattern wins
+    (["PUBLIC:p.m.C", "HIDDEN:p.m.*"], [("c", "p.m.C"), ("c", "p.m._C"), ("v", "p.m.C.f")]),
+    (["HIDDEN:p.m.*", "PRIVATE:**.C", "PUBLIC:p.?.C"], [("c", "p.m.C"), ("c", "p._m.C")]),
+    # seeded C13-1 / C13-r2-3 through the rules
+    (["HIDDEN:p.m.C?f"], [("c", "p.m.C.f")]), (["PRIVATE:p.m[._]C"], [("c", "p.m.C")]), (["HIDDEN:p.m.[C.]"], [("c", "p.m.C")]),
+    (["HIDDEN:p.[!_]*"], [("c", "p.m"), ("c", "p._m"), ("v", "p.m.C")]),
+    # findings main-module:* (fixed c8d85b0) and raises:ReError:descending-range (fixed c6e4102)
+    (["HIDDEN:p.__main__"], [("c", "p.__main__"), ("v", "p.__main__.run")]), ([], [("c", "p.__main__"), ("p", "p.__main__")]),
+    (["PUBLIC:**"], [("c", "p.__main__"), ("c", "p.m._C"), ("p", "p.m.C._f")]),
+    (["HIDDEN:p.m.[b-a]*"], [("c", "p.m.C")]),
+    # superseded definitions (cb98646) and a cache keyed by the wrong thing
+    (["HIDDEN:p.d.K 0"], [("v", "p.d.K 0.m"), ("c", "p.d.K 0.m"), ("v", "p.d.K.m")]), ([], [("v", "p.d.K.f 0"), ("v", "p.d.K.f"), ("v", "p.d._g 0")]),
+    (["HIDDEN:p.m.C"], [("c", "p.m.C"), ("c", "p._m.C"), ("c", "p.m.C.f"), ("c", "p._m.C.f"), ("c", "p.m.C")]),
+    # the default
+    ([], [("c", n) for n in ("p.m.C._", "p.m.C.__", "p.m.C.___", "p.m.C._a_", "p.m.C.a__", "p.m.C.__a_", "p.m.C.__init__", "p.m.C.__x", "p.m.k")]),
+]
+
+CORPUS_MOVES = [
+    # seeded C13-r2-1: ask below a class, move the class out of the rule's reach, ask again
+    (["HIDDEN:p.m.**"], [("c", "p.m.C.f"), ("c", "p.m.C"), ("v", "p.m.C._f"), ("M", "p.m.C", "p._m", "Moved"),
+                         ("c", "p.m.C.f"), ("c", "p.m.C"), ("v", "p.m.C._f"), ("p", "p.m.C._")]),
+    (["PRIVATE:**.Moved.*"], [("c", "p.m._C.g"), ("M", "p.m._C", "=", "Moved"), ("c", "p.m._C.g"), ("c", "p.m._C"),
+                              ("M", "p.m._C", "d", "_C"), ("c", "p.m._C.g"), ("p", "p.m._C")]),
+    (["HIDDEN:p._m.C"], [("c", "p._m.C.f"), ("v", "p._m.C.f"), ("M", "p.m.C", "p._m", "C"), ("v", "p._m.C.f"), ("c", "p.m.C"), ("v", "p.m.C.f")]),
+]
+
+
+def run_corpus(ctx: Ctx) -> None:
+    reqs, impls, pay = [], [], []
+    for p, names in CORPUS_GLOB:
+        tr = impl_translate(p)
+        bits, err = impl_match(p, names)
+        toks = o_tokens(p)
+        obits = [o_match(toks, nm) for nm in names]
+        reqs.append("glob match " + enc(p) + " " + " ".join(enc(nm) for nm in names))
+        impls.append(tr if not tr.startswith("ok ") else tr + " " + (err if err else bitstr(bits)))
+        pay.append({"pattern": p, "names": names})
+        ctx.case(reqs[-1], bits is not None and any(bits) and not all(bits), None)
+        ctx.count("corpus:glob")
+        v = check_glob_case(p, names, tr, bits, err, obits, toks)
+        if v:
+            ctx.fail(*v)
+        sp = "glob spec " + enc(p) + " " + " ".join(enc(nm) for nm in names)
+        reqs.append(sp)
+        impls.append(("wf " if o_wellformed(toks) else "desc ") + bitstr(obits))
+        pay.append({"pattern": p, "names": names, "what": "spec"})
+    ctx.compare("corpus-glob", reqs, impls, pay)
+    tree_info()
+    rs = [privacy_eval([tuple(r.split(":", 1)) for r in rules], qs, via) for rules, qs in CORPUS_PRIVACY for via in (False, True)]
+    ms = [moves_eval([tuple(r.split(":", 1)) for r in rules], evs) for rules, evs in CORPUS_MOVES]
+    for r in rs + ms:
+        ctx.case(r["line"], True, None)
+        ctx.count("corpus:privacy")
+        for f in r["fails"]:
+            ctx.fail(*f)
+    ctx.compare("corpus-privacy", [r["line"] for r in rs + ms], [r["impl"] for r in rs + ms],
+                [{"rules": r["rules"], "queries": r["queries"]} for r in rs] + [r["payload"] for r in ms])
+
+
+# ---------------------------------------------------------------------------------------------------
+# qnmatch through its lru_cache: answers and cache_info() against the model of the cache
+
+def run_lru(ctx: Ctx) -> None:
+    from pydoctor import qnmatch
+    rng = ctx.rng
+    cp = qnmatch._compile_pattern
+    maxsize = cp.cache_info().maxsize
+    reqs, impls, pay = [], [], []
+    for pool_size, ncalls in ((8, 300), (maxsize - 20, 1500), (maxsize + 40, 1500), (2 * maxsize, 2000), (3 * maxsize, 2500 if ctx.quick else 20000)):
+        pool = [rand_pattern(rng) if rng.random() < 0.9 else rng.choice(["[b-a]", "x[a--]*", "[c-a]"]) for _ in range(max(pool_size, 1))]
+        calls = [(rng.choice(["a.b", "a", "", "_x.y"]), rng.choice(pool)) for _ in range(ncalls)]
+        cp.cache_clear()
+        out = []
+        for nm, p in calls:
+            try:
+                out.append("1" if qnmatch.qnmatch(nm, p) else "0")
+            except Exception as e:
+                out.append({"ReError": "R", "IndexError": "I"}.get(exc_name(e), "X"))
+        ci = cp.cache_info()
+        reqs.append(f"glob lru {maxsize} " + " ".join(enc(nm) + " " + enc(p) for nm, p in calls))
+        impls.append(f"{''.join(out)} {ci.hits} {ci.misses} {ci.currsize}")
+        pay.append({"lru_pool": len(set(pool)), "calls": ncalls, "cache_info": str(ci)})
+        ctx.case(reqs[-1][:4000], ci.hits > 0 and ci.misses > 0, None)
+        ctx.count("lru:histories")
+        ctx.count("lru:calls", ncalls)
+        ctx.count("lru:evicting" if ci.misses - out.count("R") > maxsize else "lru:no-eviction")
+        # direct oracle: the cache never changes an answer
+        toksl = {p: o_tokens(p) for p in set(p for _, p in calls)}
+        for (nm, p), got in zip(calls, out):
+            if got in "01" and (got == "1") != o_match(toksl[p], nm):
+                ctx.fail("match-differs:through-cache", {"pattern": p, "names": [nm]}, f"qnmatch({nm!r}, {p!r}) through the lru_cache = {got}")
+                break
+    ctx.extra["lru_maxsize"] = maxsize
+    ctx.compare("glob-lru", reqs, impls, pay)
+
+
+# ---------------------------------------------------------------------------------------------------
+# configuration file + command line -> options.privacy
+
+CFG_VALUES = ["HIDDEN:p.m.*", "public:p.m.C", " Private : **._* ", "VISIBLE:p.?", "PUBLIK:x", "HIDDEN:a:b", "HIDDEN", "PRIVATE:p.[b-a]",
+              "hidden:p.d.K 0", "PUBLIC:**"]
+
+
+def run_config(ctx: Ctx) -> None:
+    import json as _json
+    import shutil
+    import tempfile
+    from pydoctor import options
+    rng = ctx.rng
+    d = tempfile.mkdtemp(prefix="c13cfg")
+    reqs, impls, pay = [], [], []
+    try:
+        cases = [([], []), ([], ["HIDDEN:p.m.*"]), (["PUBLIC:p.m.C"], ["HIDDEN:p.m.*"]), (["PUBLIC:p.m.C"], ["PUBLIK:x"]), ([], ["PUBLIK:x"])]
+        for _ in range(35 if ctx.quick else 400):
+            cases.append(([rng.choice(CFG_VALUES) for _ in range(rng.choice([0, 0, 1, 2]))], [rng.choice(CFG_VALUES) for _ in range(rng.randint(0, 3))]))
+        for i, (cli, cfg) in enumerate(cases):
+            path = f"{d}/c{i}.toml"
+            with open(path, "w") as f:
+                f.write("[tool.pydoctor]\n" + ("privacy = [%s]\n" % ", ".join(_json.dumps(v) for v in cfg) if cfg else "quiet = 0\n"))
+            try:
+                with contextlib.redirect_stderr(io.StringIO()):
+                    o = options.Options.from_args(["--config", path] + ["--privacy=" + v for v in cli])
+                got = "ok " + (",".join(f"{lv.name}={enc(pt)}" for lv, pt in o.privacy) or "-")
+            except SystemExit:
+                got = "SystemExit"
+            reqs.append("privacy effective " + " ".join(["F " + enc(v) for v in cfg] + ["V " + enc(v) for v in cli]))
+            impls.append(got)
+            pay.append({"cli": cli, "config_file": cfg})
+            ctx.case(reqs[-1], bool(cli) and bool(cfg), None)
+            ctx.count("config:" + ("cli+file" if cli and cfg else "cli" if cli else "file" if cfg else "none"))
+            # direct oracle: the command line's rules replace the file's (what C13's precedence statement is about)
+            eff = cli if cli else cfg
+            parts = [impl_parse(v) for v in eff]
+            want = "SystemExit" if any(x == "SystemExit" for x in parts) else \
+                "ok " + (",".join(x.split()[1] + "=" + x.split()[2] for x in parts) or "-")
+            if got != want:
+                ctx.fail("config-cli-combination", {"cli": cli, "config_file": cfg}, f"options.privacy = {got}, expected {want}")
+    finally:
+        shutil.rmtree(d, ignore_errors=True)
+    ctx.compare("privacy-config", reqs, impls, pay)
+
+
 def run(ctx: Ctx) -> None:
     # re warns (FutureWarning "Possible set difference/nested set") on texts such as `[a--b]`; it still compiles them
     warnings.filterwarnings("ignore", category=FutureWarning)
+    run_corpus(ctx)
     run_exhaustive(ctx)
     run_random(ctx)
+    run_lru(ctx)
     run_privacy(ctx)
     run_moves(ctx)
+    run_config(ctx)
     run_parse(ctx)
 
 
